@@ -43,18 +43,29 @@ struct el {
     struct cstl_slist_node sn;
 };
 static struct el *E[N];
+/* The ordering key of element i lives in a file-scope table that never leaves this translation unit and is WRITTEN
+ * BY THE CALLER right before the element is handed to the library: a prototype that wrongly promises "this call
+ * does not call back into the caller" (__attribute__((leaf))) lets the caller's compiler move that store across
+ * the call, and the comparison callback then sees the old value.  Callbacks also count into file-scope counters
+ * that are read right after the call. */
+static int keytab[N];
+static int ncallbacks;
 static int cmp_el(const void *a, const void *b, void *p)
 {
     const struct el *x = a, *y = b;
+    const int kx = keytab[x->key], ky = keytab[y->key];
     (void)p;
-    return vrt_cmp_result((x->key > y->key) - (x->key < y->key), (unsigned)(x->key * 7 + y->key));
+    return vrt_cmp_result((kx > ky) - (kx < ky), (unsigned)(kx * 7 + ky));
 }
+#define KEY(e) (keytab[(e)->key])
 static void mk(void)
 {
     int i;
-    for (i = 0; i < N; i++) { E[i] = vrt_alloc(sizeof(struct el)); memset(E[i], 0x5e, sizeof(struct el)); E[i]->key = (i * 29) % N; }
+    /* el.key is the element's index into keytab; the table entry is filled in by the family function */
+    for (i = 0; i < N; i++) { E[i] = vrt_alloc(sizeof(struct el)); memset(E[i], 0x5e, sizeof(struct el)); E[i]->key = i; keytab[i] = -1000 - i; }
+    ncallbacks = 0;
 }
-static void noop(void *e, void *p) { (void)e; (void)p; }
+static void noop(void *e, void *p) { (void)e; (void)p; ncallbacks++; }
 static void unmk(void) { int i; for (i = 0; i < N; i++) vrt_free(E[i]); }
 
 /* ---- trees ---- */
@@ -66,13 +77,30 @@ static __attribute__((noinline)) void f_trees(void)
     mk();
     cstl_bintree_init(&bt, cmp_el, NULL, offsetof(struct el, bn));
     cstl_rbtree_init(&rt, cmp_el, NULL, offsetof(struct el, rn));
+    {
+        VRT_OP0("bintree.insert", "three elements, keys 10 30 20 written just before each insert");
+        keytab[0] = 10; cstl_bintree_insert(&bt, E[0], NULL);
+        keytab[1] = 30; cstl_bintree_insert(&bt, E[1], NULL);
+        keytab[2] = 20; cstl_bintree_insert(&bt, E[2], NULL);
+        CK(cstl_bintree_find(&bt, E[2], NULL) == E[2] && cstl_bintree_find(&bt, E[1], NULL) == E[1] && cstl_bintree_find(&bt, E[0], NULL) == E[0],
+           "trees.indirect-keys", "an element is not found under the key that was written just before its insert");
+        keytab[3] = 10; cstl_rbtree_insert(&rt, E[3], NULL);
+        keytab[4] = 30; cstl_rbtree_insert(&rt, E[4], NULL);
+        keytab[5] = 20; cstl_rbtree_insert(&rt, E[5], NULL);
+        CK(cstl_rbtree_find(&rt, E[5], NULL) == E[5] && cstl_rbtree_find(&rt, E[4], NULL) == E[4] && cstl_rbtree_find(&rt, E[3], NULL) == E[3],
+           "trees.indirect-keys", "an element is not found under the key that was written just before its insert (rbtree)");
+        CK(cstl_bintree_erase(&bt, E[0]) == E[0] && cstl_bintree_erase(&bt, E[1]) == E[1] && cstl_bintree_erase(&bt, E[2]) == E[2]
+           && cstl_rbtree_erase(&rt, E[3]) == E[3] && cstl_rbtree_erase(&rt, E[4]) == E[4] && cstl_rbtree_erase(&rt, E[5]) == E[5], "trees.indirect-keys.erase", "erase of the three elements");
+        for (i = 0; i < 6; i++) keytab[i] = -1000 - i;
+    }
     for (i = 0; i < N; i++) {
         struct el *const e = E[i], *const ep = i > 0 ? E[i - 1] : NULL;     /* locals: the same argument VALUES in every call */
         const size_t s0 = cstl_bintree_size(&bt), r0 = cstl_rbtree_size(&rt);
         const void *f0 = cstl_bintree_find(&bt, e, NULL), *g0 = cstl_rbtree_find(&rt, e, NULL);
         size_t s1, r1;
         const void *f1, *g1;
-        VRT_OP1("bintree.insert", "key %ld", E[i]->key);
+        VRT_OP1("bintree.insert", "key %ld", ((i * 29) % N));
+        keytab[i] = (i * 29) % N;      /* the store sits directly in front of the library call */
         cstl_bintree_insert(&bt, e, NULL);
         cstl_rbtree_insert(&rt, e, NULL);
         s1 = cstl_bintree_size(&bt); r1 = cstl_rbtree_size(&rt);
@@ -84,7 +112,7 @@ static __attribute__((noinline)) void f_trees(void)
             size_t s2, r2;
             const void *f2, *g2;
             const void *fp = cstl_bintree_find(&bt, ep, NULL), *gp = cstl_rbtree_find(&rt, ep, NULL);
-            VRT_OP1("bintree.erase", "key %ld", ep->key);
+            VRT_OP1("bintree.erase", "key %ld", KEY(ep));
             CK(fp == ep && gp == ep, "trees.find-before-erase", "an element inserted earlier is not found");
             CK(cstl_bintree_erase(&bt, ep) == ep && cstl_rbtree_erase(&rt, ep) == ep, "trees.erase", "erase did not return the element");
             s2 = cstl_bintree_size(&bt); r2 = cstl_rbtree_size(&rt);
@@ -94,7 +122,14 @@ static __attribute__((noinline)) void f_trees(void)
         }
         VRT_COUNT("reread.rounds");
     }
-    cstl_bintree_clear(&bt, noop, NULL); cstl_rbtree_clear(&rt, noop, NULL);
+    {
+        const size_t left = cstl_bintree_size(&bt);
+        ncallbacks = 0;
+        cstl_bintree_clear(&bt, noop, NULL);
+        CK((size_t)ncallbacks == left, "trees.clear-callbacks", "bintree clear of %zu elements: the caller counted %d callbacks", left, ncallbacks);
+        cstl_rbtree_clear(&rt, noop, NULL);
+        CK((size_t)ncallbacks == 2 * left, "trees.clear-callbacks", "rbtree clear of %zu elements: the caller counted %d callbacks in total", left, ncallbacks);
+    }
     CK(cstl_bintree_size(&bt) == 0 && cstl_rbtree_size(&rt) == 0 && cstl_bintree_find(&bt, E[0], NULL) == NULL && cstl_rbtree_find(&rt, E[0], NULL) == NULL,
        "trees.after-clear", "size/find after clear are stale");
     unmk();
@@ -107,16 +142,30 @@ static __attribute__((noinline)) void f_heap(void)
     int i, mx = -1;
     mk();
     cstl_heap_init(&h, cmp_el, NULL, offsetof(struct el, hn));
+    {
+        /* straight-line, constant stores to neighbouring table entries, each directly in front of the call that makes
+         * the library compare with it (what a compiler merges and sinks if it believes the call cannot look) */
+        const void *g;
+        VRT_OP0("heap.push", "three elements, priorities 10 30 20 written just before each push");
+        keytab[0] = 10; cstl_heap_push(&h, E[0]);
+        keytab[1] = 30; cstl_heap_push(&h, E[1]);
+        keytab[2] = 20; cstl_heap_push(&h, E[2]);
+        g = cstl_heap_get(&h);
+        CK(g == E[1], "heap.indirect-priorities", "the top of the heap is not the element whose priority was written as 30 before its push");
+        CK(cstl_heap_pop(&h) == E[1] && cstl_heap_pop(&h) == E[2] && cstl_heap_pop(&h) == E[0] && cstl_heap_pop(&h) == NULL, "heap.indirect-priorities.pop-order", "pops do not come in priority order 30 20 10");
+        keytab[0] = -1000; keytab[1] = -1001; keytab[2] = -1002;
+    }
     for (i = 0; i < N; i++) {
         const void *g0 = cstl_heap_get(&h), *g1;
         const size_t s0 = cstl_heap_size(&h);
         size_t s1;
-        VRT_OP1("heap.push", "key %ld", E[i]->key);
+        VRT_OP1("heap.push", "key %ld", ((i * 29) % N));
+        keytab[i] = (i * 29) % N;      /* the store sits directly in front of the library call */
         cstl_heap_push(&h, E[i]);
-        if (E[i]->key > mx) mx = E[i]->key;
+        if (keytab[i] > mx) mx = keytab[i];
         g1 = cstl_heap_get(&h); s1 = cstl_heap_size(&h);
         CK((i == 0) == (g0 == NULL), "heap.get-before-push", "get before push %d returned %p", i, g0);
-        CK(s1 == s0 + 1 && g1 != NULL && ((const struct el *)g1)->key == mx, "heap.after-push", "size/get right after a push are stale (size %zu -> %zu)", s0, s1);
+        CK(s1 == s0 + 1 && g1 != NULL && KEY((const struct el *)g1) == mx, "heap.after-push", "size/get right after a push are stale (size %zu -> %zu)", s0, s1);
         VRT_COUNT("reread.rounds");
     }
     for (i = N - 1; i >= 0; i--) {
@@ -125,13 +174,15 @@ static __attribute__((noinline)) void f_heap(void)
         VRT_OP0("heap.pop", "");
         p = cstl_heap_pop(&h);
         g1 = cstl_heap_get(&h);
-        CK(p == g0 && ((struct el *)p)->key == i, "heap.pop", "pop returned key %d, expected %d", p ? ((struct el *)p)->key : -1, i);
-        CK(cstl_heap_size(&h) == (size_t)i && (i == 0 ? g1 == NULL : (g1 != NULL && ((const struct el *)g1)->key == i - 1)), "heap.after-pop", "size/get right after a pop are stale");
+        CK(p == g0 && KEY((struct el *)p) == i, "heap.pop", "pop returned key %d, expected %d", p ? KEY((struct el *)p) : -1, i);
+        CK(cstl_heap_size(&h) == (size_t)i && (i == 0 ? g1 == NULL : (g1 != NULL && KEY((const struct el *)g1) == i - 1)), "heap.after-pop", "size/get right after a pop are stale");
     }
     unmk();
 }
 
 /* ---- hash ---- */
+static int nvisits;
+static int count_visit(const void *e, void *p) { (void)e; ++*(size_t *)p; nvisits++; return 0; }
 static __attribute__((noinline)) void f_hash(void)
 {
     struct cstl_hash h;
@@ -140,7 +191,7 @@ static __attribute__((noinline)) void f_hash(void)
     cstl_hash_init(&h, offsetof(struct el, xn));
     cstl_hash_resize(&h, 8, NULL);
     for (i = 0; i < N; i++) {
-        const size_t k = (size_t)E[i]->key * 0x100000001ull, s0 = cstl_hash_size(&h);
+        const size_t k = (size_t)((i * 29) % N) * 0x100000001ull, s0 = cstl_hash_size(&h);
         const float l0 = cstl_hash_load(&h);
         struct el *const e = E[i];
         void *f0 = cstl_hash_find(&h, k, NULL, NULL), *f1;
@@ -158,13 +209,22 @@ static __attribute__((noinline)) void f_hash(void)
         }
         VRT_COUNT("reread.rounds");
     }
-    cstl_hash_clear(&h, noop);
+    {
+        const size_t left = cstl_hash_size(&h);
+        size_t seen = 0;
+        CK(cstl_hash_foreach_const(&h, count_visit, &seen) == 0 && seen == left && (size_t)nvisits == left, "hash.foreach-callbacks",
+           "foreach_const over %zu elements: %zu / %d visits counted by the caller", left, seen, nvisits);
+        ncallbacks = 0;
+        cstl_hash_clear(&h, noop);
+        CK((size_t)ncallbacks == left, "hash.clear-callbacks", "clear of %zu elements: the caller counted %d callbacks", left, ncallbacks);
+    }
     CK(cstl_hash_size(&h) == 0, "hash.after-clear", "size after clear is stale");
     unmk();
 }
 
 /* ---- map ---- */
-static int cmp_int(const void *a, const void *b, void *p) { (void)p; return (*(const int *)a > *(const int *)b) - (*(const int *)a < *(const int *)b); }
+static int ncmp_int;
+static int cmp_int(const void *a, const void *b, void *p) { (void)p; ncmp_int++; return (*(const int *)a > *(const int *)b) - (*(const int *)a < *(const int *)b); }
 static __attribute__((noinline)) void f_map(void)
 {
     cstl_map_t m;
@@ -192,11 +252,25 @@ static __attribute__((noinline)) void f_map(void)
         }
         VRT_COUNT("reread.rounds");
     }
-    cstl_map_clear(&m, noop, NULL);
+    {
+        const size_t left = cstl_map_size(&m);
+        cstl_map_iterator_t it;
+        int probe = keys[N - 1], c0 = ncmp_int;
+        cstl_map_find(&m, &probe, &it);
+        CK(ncmp_int > c0, "map.find-comparisons", "a find in a map of %zu entries: the caller counted no comparison", left);
+        ncallbacks = 0;
+        cstl_map_clear(&m, noop, NULL);
+        CK((size_t)ncallbacks == left, "map.clear-callbacks", "clear of %zu entries: the caller counted %d callbacks", left, ncallbacks);
+    }
     CK(cstl_map_size(&m) == 0, "map.after-clear", "size after clear is stale");
 }
 
 /* ---- vector ---- */
+static int nctor, ndtor;
+static void v_ctor(void *e, void *p) { (void)p; *(uint32_t *)e = 0xC0C0C0C0u; nctor++; }
+static void v_dtor(void *e, void *p) { (void)p; *(uint32_t *)e = 0xDDDDDDDDu; ndtor++; }
+static int nvcmp;
+static int cmp_u32(const void *a, const void *b, void *p) { (void)p; nvcmp++; return (*(const uint32_t *)a > *(const uint32_t *)b) - (*(const uint32_t *)a < *(const uint32_t *)b); }
 static __attribute__((noinline)) void f_vector(void)
 {
     struct cstl_vector v;
@@ -225,6 +299,27 @@ static __attribute__((noinline)) void f_vector(void)
            "vector.after-shrink", "size/capacity/data/at right after shrinking are stale");
         cstl_vector_clear(&v);
         CK(cstl_vector_size(&v) == 0 && cstl_vector_capacity(&v) == 0 && cstl_vector_data(&v) == NULL, "vector.after-clear", "size/capacity/data after clear are stale");
+    }
+    {
+        struct cstl_vector w;
+        cstl_vector_init_complex(&w, sizeof(uint32_t), v_ctor, v_dtor, NULL);
+        nctor = ndtor = 0;
+        cstl_vector_resize(&w, 100);
+        CK(nctor == 100 && ndtor == 0, "vector.constructor-calls", "growing by 100 elements: the caller counted %d constructor calls", nctor);
+        cstl_vector_resize(&w, 40);
+        CK(ndtor == 60, "vector.destructor-calls", "shrinking by 60 elements: the caller counted %d destructor calls", ndtor);
+        cstl_vector_clear(&w);
+        CK(ndtor == 100 && nctor == 100, "vector.destructor-calls", "after clear: %d constructor and %d destructor calls for 100 elements", nctor, ndtor);
+        /* sort with a comparator that counts into file-scope state */
+        cstl_vector_init(&w, sizeof(uint32_t));
+        cstl_vector_resize(&w, 64);
+        { size_t k; for (k = 0; k < 64; k++) *(uint32_t *)cstl_vector_at(&w, k) = (uint32_t)((k * 37) % 64); }
+        nvcmp = 0;
+        cstl_vector_sort(&w, cmp_u32, NULL);
+        { size_t k; for (k = 0; k < 64; k++) CK(*(uint32_t *)cstl_vector_at(&w, k) == k, "vector.sort", "element %zu after sort", k); }
+        CK(nvcmp >= 63, "vector.sort-comparisons", "sorting 64 elements: the caller counted %d comparisons", nvcmp);
+        { uint32_t probe = 17; CK(cstl_vector_search(&w, &probe, cmp_u32, NULL) == 17 && cstl_vector_find(&w, &probe, cmp_u32, NULL) == 17, "vector.search", "search/find of a present value"); }
+        cstl_vector_clear(&w);
     }
 }
 
@@ -270,21 +365,49 @@ static __attribute__((noinline)) void f_string(void)
 }
 
 /* ---- lists ---- */
+static int lv_last, lv_count, lv_bad;
+static int order_visit(void *e, void *p)
+{
+    const int k = KEY((struct el *)e);
+    (void)p;
+    if (k < lv_last) lv_bad++;
+    lv_last = k; lv_count++;
+    return 0;
+}
 static __attribute__((noinline)) void f_dlist(void)
 {
     struct cstl_dlist l;
     int i;
     mk();
     cstl_dlist_init(&l, offsetof(struct el, dn));
+    {
+        VRT_OP0("dlist.sort", "three elements, keys 30 10 20 written just before each push_back");
+        keytab[0] = 30; cstl_dlist_push_back(&l, E[0]);
+        keytab[1] = 10; cstl_dlist_push_back(&l, E[1]);
+        keytab[2] = 20; cstl_dlist_push_back(&l, E[2]);
+        cstl_dlist_sort(&l, cmp_el, NULL);
+        CK(cstl_dlist_front(&l) == E[1] && cstl_dlist_back(&l) == E[0], "dlist.indirect-keys", "after sort front/back are not the elements whose keys were written as 10 and 30");
+        CK(cstl_dlist_pop_front(&l) == E[1] && cstl_dlist_pop_front(&l) == E[2] && cstl_dlist_pop_front(&l) == E[0], "dlist.indirect-keys.order", "sorted order is not 10 20 30");
+        keytab[0] = -1000; keytab[1] = -1001; keytab[2] = -1002;
+    }
     for (i = 0; i < N; i++) {
         const size_t s0 = cstl_dlist_size(&l);
         void *f0 = cstl_dlist_front(&l), *b0 = cstl_dlist_back(&l), *f1, *b1;
         VRT_OP1("dlist.push", "%ld", i);
+        keytab[i] = (i * 29) % N;      /* the store sits directly in front of the library call */
         if (i & 1) cstl_dlist_push_front(&l, E[i]); else cstl_dlist_push_back(&l, E[i]);
         f1 = cstl_dlist_front(&l); b1 = cstl_dlist_back(&l);
         CK(cstl_dlist_size(&l) == s0 + 1 && (i == 0 ? (f0 == NULL && b0 == NULL && f1 == E[0] && b1 == E[0]) : (i & 1) ? (f1 == E[i] && b1 == b0) : (b1 == E[i] && f1 == f0)),
            "dlist.after-push", "size/front/back right after a push are stale");
         VRT_COUNT("reread.rounds");
+    }
+    {
+        /* sort by keys the caller wrote into its own table, then walk with a visitor that counts into file-scope state */
+        VRT_OP0("dlist.sort", "");
+        cstl_dlist_sort(&l, cmp_el, NULL);
+        lv_last = -1; lv_count = 0; lv_bad = 0;
+        CK(cstl_dlist_foreach(&l, order_visit, NULL, CSTL_DLIST_FOREACH_DIR_FWD) == 0 && lv_count == N && lv_bad == 0, "dlist.sort-foreach", "after sort the visitor saw %d elements, %d out of order", lv_count, lv_bad);
+        CK(KEY((struct el *)cstl_dlist_front(&l)) == 0 && KEY((struct el *)cstl_dlist_back(&l)) == N - 1, "dlist.sort-front-back", "front/back after sort are not the least/greatest element");
     }
     for (i = 0; i < N; i++) {
         void *f0 = cstl_dlist_front(&l), *b0 = cstl_dlist_back(&l), *p;
@@ -302,15 +425,34 @@ static __attribute__((noinline)) void f_slist(void)
     int i;
     mk();
     cstl_slist_init(&l, offsetof(struct el, sn));
+    {
+        VRT_OP0("slist.sort", "three elements, keys 30 10 20 written just before each push_back");
+        keytab[0] = 30; cstl_slist_push_back(&l, E[0]);
+        keytab[1] = 10; cstl_slist_push_back(&l, E[1]);
+        keytab[2] = 20; cstl_slist_push_back(&l, E[2]);
+        cstl_slist_sort(&l, cmp_el, NULL);
+        CK(cstl_slist_front(&l) == E[1] && cstl_slist_back(&l) == E[0], "slist.indirect-keys", "after sort front/back are not the elements whose keys were written as 10 and 30");
+        CK(cstl_slist_pop_front(&l) == E[1] && cstl_slist_pop_front(&l) == E[2] && cstl_slist_pop_front(&l) == E[0], "slist.indirect-keys.order", "sorted order is not 10 20 30");
+        keytab[0] = -1000; keytab[1] = -1001; keytab[2] = -1002;
+    }
     for (i = 0; i < N; i++) {
         const size_t s0 = cstl_slist_size(&l);
         void *f0 = cstl_slist_front(&l), *b0 = cstl_slist_back(&l), *f1, *b1;
         VRT_OP1("slist.push", "%ld", i);
+        keytab[i] = (i * 29) % N;      /* the store sits directly in front of the library call */
         if (i & 1) cstl_slist_push_front(&l, E[i]); else cstl_slist_push_back(&l, E[i]);
         f1 = cstl_slist_front(&l); b1 = cstl_slist_back(&l);
         CK(cstl_slist_size(&l) == s0 + 1 && (i == 0 ? (f0 == NULL && b0 == NULL && f1 == E[0] && b1 == E[0]) : (i & 1) ? (f1 == E[i] && b1 == b0) : (b1 == E[i] && f1 == f0)),
            "slist.after-push", "size/front/back right after a push are stale");
         VRT_COUNT("reread.rounds");
+    }
+    {
+        /* sort by keys the caller wrote into its own table, then walk with a visitor that counts into file-scope state */
+        VRT_OP0("slist.sort", "");
+        cstl_slist_sort(&l, cmp_el, NULL);
+        lv_last = -1; lv_count = 0; lv_bad = 0;
+        CK(cstl_slist_foreach(&l, order_visit, NULL) == 0 && lv_count == N && lv_bad == 0, "slist.sort-foreach", "after sort the visitor saw %d elements, %d out of order", lv_count, lv_bad);
+        CK(KEY((struct el *)cstl_slist_front(&l)) == 0 && KEY((struct el *)cstl_slist_back(&l)) == N - 1, "slist.sort-front-back", "front/back after sort are not the least/greatest element");
     }
     for (i = 0; i < N; i++) {
         void *f0 = cstl_slist_front(&l), *b0 = cstl_slist_back(&l), *p;
